@@ -13,6 +13,7 @@ package main
 
 import (
 	"bytes"
+	"context"
 	"crypto/sha1"
 	"encoding/json"
 	"fmt"
@@ -22,6 +23,7 @@ import (
 	"path/filepath"
 	"sort"
 	"strings"
+	"time"
 
 	"github.com/itchyny/gojq"
 	"github.com/itchyny/gojq/cli"
@@ -46,9 +48,38 @@ func keyOf(prefix, s string) string {
 	return prefix + ":" + s
 }
 
+var gctx *common.Ctx
+
+// runaway reports a command that does not terminate (or floods its output) and ends the
+// harness: nothing after it can be trusted to return.
+func runaway(args []string, stdin, what string) {
+	gctx.Violate(keyOf("runaway", stable(args)+"<"+stdin), fmt.Sprintf("gojq %s %s", stable(args), what),
+		map[string]any{"args": args, "stdin": stdin, "observed": what, "expected": "the command terminates", "cmd": "printf %s" + shq([]string{stdin}) + " | timeout 10 gojq" + shq(args)})
+	os.RemoveAll(tmpDir)
+	gctx.Finish()
+}
+
 // runCmd runs the real command in-process.
 func runCmd(args []string, stdin string) (stdout, stderr string, code, diags int) {
-	chunks, code := cli.VerifRunLog(args, []byte(stdin), false)
+	type res struct {
+		chunks []cli.VerifChunk
+		code   int
+	}
+	ch := make(chan res, 1)
+	go func() {
+		c, code := cli.VerifRunLog(args, []byte(stdin), false)
+		ch <- res{c, code}
+	}()
+	var rr res
+	select {
+	case rr = <-ch:
+	case <-time.After(30 * time.Second):
+		runaway(args, stdin, "did not terminate within 30 s")
+	}
+	if rr.code == cli.VerifRunawayCode {
+		runaway(args, stdin, fmt.Sprintf("wrote more than %d bytes", cli.VerifOutputLimit))
+	}
+	chunks, code := rr.chunks, rr.code
 	var o, e strings.Builder
 	for _, c := range chunks {
 		if c.Stream == 1 {
@@ -96,7 +127,7 @@ func streamReal(data []byte) (evs []any, fin string) {
 		}
 	}()
 	next := cli.VerifStream(bytes.NewReader(data))
-	for i := 0; i < 1<<20; i++ {
+	for i := 0; i < 1<<16; i++ {
 		v, err := next()
 		if err != nil {
 			if err == io.EOF {
@@ -162,6 +193,7 @@ func shq(args []string) string {
 
 func main() {
 	ctx := common.ParseFlags("C16")
+	gctx = ctx
 	r := ctx.R
 	var err error
 	if tmpDir, err = os.MkdirTemp("", "verif-c16-"); err != nil {
@@ -231,7 +263,7 @@ func streamCorrespondence(ctx *common.Ctx, r *common.Rand) {
 				orc.Distribution["cut inside a document"]++
 			}
 			if w := canonSeq(want, wfin); w != got {
-				ctx.Violate(keyOf("stream-cut", fmt.Sprintf("%q@%d", text, k)),
+				ctx.Violate(keyOf("stream-cut", text),
 					fmt.Sprintf("--stream on %q cut at byte %d: events differ from the reference", clip(text), k),
 					map[string]any{"text": text, "cut": k, "observed": got, "expected": w,
 						"cmd": fmt.Sprintf("printf %%s %s | head -c %d | gojq -c --stream .", shq([]string{text}), k)})
@@ -531,6 +563,9 @@ func inputsCorrespondence(ctx *common.Ctx, r *common.Rand) {
 			}
 		}
 		items := cli.VerifInputs(m.raw, m.stream, m.slurp, l.fileArgs(), []byte(l.stdin.text))
+		if len(items) >= 1<<16 {
+			runaway(append([]string{"<iterator stack, mode " + m.name + ">"}, l.fileArgs()...), l.stdin.text, "the input iterator never ends")
+		}
 		parts := make([]string, 0, len(items)+1)
 		for _, it := range items {
 			if _, ok := it.(error); ok {
@@ -942,7 +977,9 @@ func binaryOracle(ctx *common.Ctx, r *common.Rand) {
 		return
 	}
 	runBin := func(args []string, stdin string) (string, int) {
-		c := exec.Command(bin, args...)
+		cx, cancel := context.WithTimeout(context.Background(), 20*time.Second)
+		defer cancel()
+		c := exec.CommandContext(cx, bin, args...)
 		c.Stdin = strings.NewReader(stdin)
 		c.Env = append(os.Environ(), "NO_COLOR=1")
 		var o bytes.Buffer
